@@ -276,26 +276,30 @@ class WorkerRun:
             payload = {RESOURCE_ATTR: self.level, "bad": "x" * 60000}
         else:
             payload = {RESOURCE_ATTR: self.level, "bad": None}
-        buf = io.StringIO()
-        raised, exc = False, None
-        it0 = getattr(self.reporter, "iter", None)
-        try:
-            with contextlib.redirect_stdout(buf):
-                self.reporter(**payload)
-        except BaseException as e:  # a script may catch this and carry on
-            raised, exc = True, type(e).__name__
-        text = buf.getvalue()
-        # whatever the reporter printed before raising is on the stream (as it would be for a real script)
-        if text:
-            self.sink.emit(self.trial_id, text)
-        wrote_tag = "[tune-metric]" in text
-        if raised and it0 is not None:
-            self.reporter.iter = it0 if not wrote_tag else self.reporter.iter
-        self.sim.count("fault.F11_rejected_report_attempt")
-        self.sim.log("w.reject", trial=self.trial_id, run=self.run, level=self.level, kind=kind, raised=raised, exc=exc,
-                     wrote_report=wrote_tag)
-        if not raised:
-            self.n_reports += 1  # it went through: the stream now holds one more report
+        # a defensive script catches the rejection and (sometimes) simply tries the same report once more
+        for attempt in range(2 if hfloat(u, "retry") < 0.4 else 1):
+            buf = io.StringIO()
+            raised, exc = False, None
+            it0 = getattr(self.reporter, "iter", None)
+            try:
+                with contextlib.redirect_stdout(buf):
+                    self.reporter(**payload)
+            except BaseException as e:  # a script may catch this and carry on
+                raised, exc = True, type(e).__name__
+            text = buf.getvalue()
+            # whatever the reporter printed before raising is on the stream (as it would be for a real script)
+            if text:
+                self.sink.emit(self.trial_id, text)
+            wrote_tag = "[tune-metric]" in text
+            if raised and it0 is not None:
+                self.reporter.iter = it0 if not wrote_tag else self.reporter.iter
+            self.sim.count("fault.F11_rejected_report_attempt")
+            self.sim.log("w.reject", trial=self.trial_id, run=self.run, level=self.level, kind=kind, raised=raised, exc=exc,
+                         wrote_report=wrote_tag)
+            if not raised:
+                self.n_reports += 1  # it went through: the stream now holds one more report
+            if not raised:
+                break
 
     def _noise(self):
         n = self.job.s.get("noise", 0)
